@@ -27,9 +27,9 @@ EXTENDS Integers, Sequences, FiniteSets, TLC, Json
 
 CONSTANTS MaxLen, Alpha, Mode, MaxSecs, Variety, Emit, EmitMod
 
-VARIABLES lines, expect, sig, opts, pcand, excl, pc, offset, in_code, cur, adm, sections, crash, flags
-vars == <<lines, expect, sig, opts, pcand, excl, pc, offset, in_code, cur, adm, sections, crash, flags>>
-input == <<lines, expect, sig>>
+VARIABLES lines, expect, sig, wrap, opts, pcand, excl, pc, offset, in_code, cur, adm, sections, crash, flags
+vars == <<lines, expect, sig, wrap, opts, pcand, excl, pc, offset, in_code, cur, adm, sections, crash, flags>>
+input == <<lines, expect, sig, wrap>>     \* wrap: shape of the parent's return annotation (struct mode): plain | iter | gen
 
 OptNames == {"ignore_init_summary"}     \* trim_doctest_flags, warn_unknown_params decide no branch: varied by the harness
 \* tuplefn: function returning tuple[int, str]; genfn: function returning Generator[tuple[..], tuple[..], tuple[..]]
@@ -55,7 +55,7 @@ CoreKinds == {"parameters", "returns", "attributes", "examples", "deprecated"}
 Core == {Blank, Dash(0), Dash(4), FenceL(0), Prompt(0), Ln(2, "X"), Ln(4, "X")}
           \cup {Hdr(K) : K \in CoreKinds} \cup {Ln(0, f) : f \in {"N", "NT", "C", "X"}}
 Mid == Core \cup {Hdr(K) : K \in SecKinds} \cup {Ln(0, f) : f \in {"P", "NK", "CT", "NN", "NC", "ND", "F"}} \cup {FenceL(4), Ln(4, "C"), Ln(4, "NT")}
-\* the crashes of the pinned tree: attributes + `:`; returns / receives + three untyped items under a tuple / generator parent
+\* regression domains (repaired crashes): attributes + `:`; returns / receives + three untyped items under a tuple / generator parent
 Defect == {Dash(0), Hdr("returns"), Hdr("receives"), Hdr("attributes"), Ln(0, "C")}
 \* ... attributes + a plain name under a parent in which that name is an unresolvable alias
 Defect2 == {Dash(0), Hdr("attributes"), Ln(0, "C"), Ln(0, "N"), Ln(4, "X")}
@@ -117,7 +117,8 @@ ReadBlock(off) ==
 \* ann: "doc" written on the line, "sig" from the parent, "none", "l" the whole line, "p" whatever the parent supplies (seq mode)
 \* dflt: "doc" | "sig" | "none" | "-";  strip: how the description is finished: "r" rstrip(), "s" strip(), "n" nothing (dedent only)
 El(it, cnt, name, ann, dflt, strip) ==
-  [first |-> it.first, body |-> IF strip = "n" THEN it.body ELSE RStripBlank(it.body), cnt |-> cnt, name |-> name, ann |-> ann, dflt |-> dflt, strip |-> strip]
+  \* _read_block_items pops the trailing blank lines of every item, whatever the reader does with the text afterwards
+  [first |-> it.first, body |-> RStripBlank(it.body), cnt |-> cnt, name |-> name, ann |-> ann, dflt |-> dflt, strip |-> strip]
 SigAnn(it) == IF Mode = "seq" THEN "none" ELSE IF sig[it.first + 1].ann THEN "sig" ELSE "none"
 SigDef(it) == IF Mode = "seq" THEN "none" ELSE IF sig[it.first + 1].def THEN "sig" ELSE "none"
 ParentAnn(it) == IF Mode = "seq" THEN "p" ELSE IF sig[it.first + 1].ann THEN "sig" ELSE "none"
@@ -153,20 +154,6 @@ AttrEl(it) ==
     [] f = "C"  -> El(it, 1, "e", "none", "-", "n")
     [] f = "N"  -> El(it, 1, "n", SigAnn(it), "-", "n")               \* no colon: the whole line is the name
     [] OTHER    -> El(it, 1, "l", "none", "-", "n")
-\* hazards of `docstring.parent[name].annotation` under suppress(AttributeError, KeyError, TypeError), in item order:
-\* "empty" name "" (ValueError with any parent), "alias" a plain name that is an unresolvable alias (AliasResolutionError)
-RECURSIVE AttrHazards(_, _)
-AttrHazards(items, acc) ==
-  IF items = <<>> THEN acc
-  ELSE LET ln == L(Head(items).first) f == Form(ln) IN
-       AttrHazards(Tail(items), IF f = "C" THEN Append(acc, "empty")
-                                ELSE IF (f = "NK" \/ (f = "N" /\ ln.ind = 0)) /\ ~sig[Head(items).first + 1].ann THEN Append(acc, "alias") ELSE acc)
-ParentClass == [none |-> {"none"}, alias |-> {"aliasmod"}, other |-> Parents \ {"none", "aliasmod"}]
-HazardOutcome(hz, cls) ==
-  CASE cls = "none" -> ""
-    [] cls = "alias" -> IF hz[1] = "empty" THEN "ValueError" ELSE "AliasResolutionError"
-    [] OTHER -> IF \E j \in 1..Len(hz) : hz[j] = "empty" THEN "ValueError" ELSE ""
-
 SigEl(it) == LET f == Form(L(it.first)) IN IF f = "F" THEN El(it, 1, "n", "doc", "-", "s") ELSE El(it, 1, IF f = "N" THEN "n" ELSE "l", "none", "-", "s")
 AnnEl(it) == El(it, 1, "-", "l", "-", "n")
 MapEls(items, K) == [j \in 1..Len(items) |-> CASE K \in AnnKinds -> AnnEl(items[j]) [] K \in SigKinds -> SigEl(items[j])
@@ -314,11 +301,17 @@ SeqLines ==
               lines = <<a>> \o m \o <<z>> /\ CleandocFixedPoint(lines)
 InitSeq ==
   /\ SeqLines
-  /\ sig = [j \in 1..Len(lines) |-> NoSig] /\ expect = <<>>
+  /\ sig = [j \in 1..Len(lines) |-> NoSig] /\ expect = <<>> /\ wrap = "plain"
   /\ opts = [o \in OptNames |-> "U"] /\ pcand = Parents
+\* Returns takes its types from a plain / tuple annotation, Yields from Iterator[...] or Generator[...], Receives from Generator[...]
+\* (what the Numpy Returns reader does under Iterator / Generator annotations depends on the number of items and is not claimed)
+WrapOK(st, w) ==
+  LET S == {j \in 1..Len(st) : RetSann(st[j])} IN
+  IF S = {} THEN w = "plain"
+  ELSE \A j \in S : (st[j].kind = "returns" /\ w = "plain") \/ (st[j].kind = "yields" /\ w # "plain") \/ (st[j].kind = "receives" /\ w = "gen")
 InitStruct ==
-  \E st \in Structs :
-    /\ StructOK(st)
+  \E st \in Structs, w \in {"plain", "iter", "gen"} :
+    /\ StructOK(st) /\ WrapOK(st, w) /\ wrap = w
     /\ LET r == RenderLines(st) IN lines = r.lines /\ sig = r.sig /\ expect = r.expect
     /\ opts = [o \in OptNames |-> "F"] /\ pcand = {"function"}
 Init ==
@@ -376,45 +369,15 @@ ReadParametersSection ==
      ELSE Return(IF els # <<>> THEN Append(sections, SecRec(Kind, offset, <<>>, els, <<>>)) ELSE sections, r.off)
   /\ UNCHANGED <<input, opts, pcand, excl>>
 
-\* raises, warns, functions, classes, modules, yields: one element per item, nothing that can raise
+\* raises, warns, functions, classes, modules, returns, yields, receives, attributes: one element per item; the look-ups in the
+\* parent run under suppress(...) that covers what they can raise (IndexError of a tuple overrun, ValueError of the empty name,
+\* AliasResolutionError of an unresolvable member)
 ReadPlainItemsSection ==
-  /\ pc = "section" /\ Kind \in AnnKinds \cup SigKinds \cup {"yields"}
+  /\ pc = "section" /\ Kind \in AnnKinds \cup SigKinds \cup RetKinds \cup {"attributes"}
   /\ LET r == ReadBlockItems(offset + 2) IN
      IF r.crash # "" THEN Crash(r.crash, "_read_block_items")
      ELSE Return(IF r.items # <<>> THEN Append(sections, SecRec(Kind, offset, <<>>, MapEls(r.items, Kind), <<>>)) ELSE sections, r.off)
   /\ UNCHANGED <<input, opts, pcand, excl>>
-
-\* returns: `annotation.slice.elements[index]` under suppress(AttributeError, KeyError, ValueError): the third untyped item of
-\* a tuple[a, b] / Generator[.., .., tuple[a, b]] return annotation raises IndexError.  receives: same with the send type,
-\* under suppress(AttributeError, KeyError).
-ReadReturnsSection ==
-  /\ pc = "section" /\ Kind \in {"returns", "receives"}
-  /\ LET r == ReadBlockItems(offset + 2)
-         P == IF Kind = "returns" THEN {"tuplefn", "genfn"} ELSE {"genfn"}
-         overrun == \E j \in 3..Len(r.items) : Untyped(r.items[j])
-     IN IF r.crash # "" THEN Crash(r.crash, "_read_block_items") /\ pcand' = pcand
-        ELSE IF overrun
-          THEN \E tup \in BOOLEAN :
-                 /\ Split(P, tup) # {} /\ pcand' = Split(P, tup)
-                 /\ IF tup THEN Crash("IndexError", Kind)
-                    ELSE Return(Append(sections, SecRec(Kind, offset, <<>>, MapEls(r.items, Kind), <<>>)), r.off)
-        ELSE /\ pcand' = pcand
-             /\ Return(IF r.items # <<>> THEN Append(sections, SecRec(Kind, offset, <<>>, MapEls(r.items, Kind), <<>>)) ELSE sections, r.off)
-  /\ UNCHANGED <<input, opts, excl>>
-
-ReadAttributesSection ==
-  /\ pc = "section" /\ Kind = "attributes"
-  /\ LET r == ReadBlockItems(offset + 2)
-         hz == AttrHazards(r.items, <<>>)
-         done == IF r.items # <<>> THEN Append(sections, SecRec(Kind, offset, <<>>, MapEls(r.items, Kind), <<>>)) ELSE sections
-     IN IF r.crash # "" THEN Crash(r.crash, "_read_block_items") /\ pcand' = pcand
-        ELSE IF hz # <<>>
-          THEN \E o \in {HazardOutcome(hz, c) : c \in {"none", "alias", "other"}} :
-                 LET P == UNION {ParentClass[c] : c \in {c2 \in {"none", "alias", "other"} : HazardOutcome(hz, c2) = o}} IN
-                 /\ pcand \cap P # {} /\ pcand' = pcand \cap P
-                 /\ IF o = "" THEN Return(done, r.off) ELSE Crash(o, "attributes")
-        ELSE /\ pcand' = pcand /\ Return(done, r.off)
-  /\ UNCHANGED <<input, opts, excl>>
 
 \* deprecated: the first item only (version = its first line, text = the rest)
 ReadDeprecatedSection ==
@@ -436,7 +399,7 @@ Finish ==
   /\ sections' = AppendSection(sections, cur, adm) /\ pc' = "done"
   /\ UNCHANGED <<input, opts, pcand, excl, offset, in_code, cur, adm, crash, flags>>
 
-Next == Start \/ MainIter \/ ReadParametersSection \/ ReadPlainItemsSection \/ ReadReturnsSection \/ ReadAttributesSection
+Next == Start \/ MainIter \/ ReadParametersSection \/ ReadPlainItemsSection
           \/ ReadDeprecatedSection \/ ReadExamplesSection \/ Finish
 Spec == Init /\ [][Next]_vars
 
@@ -445,13 +408,9 @@ Done == pc = "done"
 Crashed == pc = "crashed"
 Final == Done \/ Crashed
 
-KnownCrashSites == {<<"ValueError", "attributes">>, <<"AliasResolutionError", "attributes">>, <<"IndexError", "returns">>, <<"IndexError", "receives">>}
+\* (the crash transitions of the defects repaired in /repo are gone; "defect" / "defect2" alphabets = regression domains)
 NoCrash == ~Crashed
-\* one invariant per documented defect (checked - and violated - in DocNumpy_defect.cfg)
-NoValueErrorEmptyAttributeName == ~(Crashed /\ crash.at = "attributes" /\ crash.exc = "ValueError")
-NoAliasResolutionErrorInAttributes == ~(Crashed /\ crash.exc = "AliasResolutionError")
-NoIndexErrorTupleOverrun == ~(Crashed /\ crash.exc = "IndexError" /\ crash.at \in {"returns", "receives"})
-NoCrashBeyondKnown == Crashed => <<crash.exc, crash.at>> \in KnownCrashSites
+NoCrashBeyondKnown == NoCrash
 
 Progress == [][(pc = "section" \/ (pc = "main" /\ pc' = "main")) => (Crashed' \/ offset' > offset)]_vars
 OffsetBounded == offset <= N + 2
@@ -478,18 +437,14 @@ PlainText == (Done /\ NoSyntax /\ ~flags.ignored) => sections = <<TextSec(SeqFro
 EmptyDoc == lines = <<Blank>>
 PlainTextBeyondKnown == (Done /\ NoSyntax /\ ~flags.ignored /\ ~EmptyDoc) => sections = <<TextSec(SeqFromTo(0, N - 1))>>
 
-\* C13
-\* known: descriptions of the last item of a section keep the blank line that separates it from the next section
-\* (dedent without strip), in every section but parameters / functions / classes / modules (findings.d/C13.json)
-Same(a, b, exact) ==
+\* C13: kinds, order, header lines, consumed lines, items (names, annotation / default sources, description lines)
+Same(a, b) ==
   /\ Len(a) = Len(b)
   /\ \A j \in 1..Len(a) :
        /\ a[j].kind = b[j].kind /\ a[j].hdr = b[j].hdr /\ a[j].tl = b[j].tl /\ a[j].subs = b[j].subs /\ Len(a[j].items) = Len(b[j].items)
        /\ \A m \in 1..Len(a[j].items) : LET x == a[j].items[m] y == b[j].items[m] IN
-            /\ x.first = y.first /\ x.cnt = y.cnt /\ x.name = y.name /\ x.ann = y.ann /\ x.dflt = y.dflt
-            /\ IF exact THEN x.body = y.body ELSE RStripBlank(x.body) = RStripBlank(y.body)
-ParsesBack == (Mode = "struct" /\ Final) => (Done /\ Same(sections, expect, TRUE))
-ParsesBackBeyondKnown == (Mode = "struct" /\ Final) => (Done /\ Same(sections, expect, FALSE))
+            /\ x.first = y.first /\ x.cnt = y.cnt /\ x.name = y.name /\ x.ann = y.ann /\ x.dflt = y.dflt /\ x.body = y.body
+ParsesBack == (Mode = "struct" /\ Final) => (Done /\ Same(sections, expect))
 
 \* every state is checked against the invariants; the replay harness gets the final states whose checksum is 0 mod EmitMod
 LineCode(ln) == ln.ind + (CASE ln.k = "blank" -> 1 [] ln.k = "dash" -> 2 [] ln.k = "hdr" -> 3 [] ln.k = "line" -> 5 [] ln.k = "fence" -> 11 [] OTHER -> 13)
@@ -502,5 +457,5 @@ EmitCase ==
        THEN PrintT(<<"CASE", ToJson([lines |-> lines, opts |-> opts, pcand |-> pcand, excl |-> excl, outcome |-> pc, crash |-> crash,
                                      sections |-> sections, flags |-> flags])>>)
        ELSE PrintT(<<"CASE", ToJson([lines |-> lines, opts |-> opts, pcand |-> pcand, excl |-> excl, outcome |-> pc, crash |-> crash,
-                                     sections |-> sections, flags |-> flags, expect |-> expect, sig |-> sig])>>)
+                                     sections |-> sections, flags |-> flags, expect |-> expect, sig |-> sig, wrap |-> wrap])>>)
 =============================================================================
